@@ -23,10 +23,10 @@ def model_check(rep, tier):
             raise MachineryError("TLC failed: %s\n%s" % (r.error, r.tail(20)))
     cov = r.coverage()
     never = [a for a in ("Setup", "Iterate", "IterateN", "Run", "SampleCall", "GetProgress", "IsComplete",
-                         "GetOutput", "Finalize") if cov.get(a, (0, 0))[1] == 0]
+                         "GetOutput", "Finalize", "Drop") if cov.get(a, (0, 0))[1] == 0]
     rep.extra["lifecycle_action_coverage"] = {k: v[1] for k, v in cov.items() if k in
                                               ("Setup", "Iterate", "IterateN", "Run", "SampleCall", "GetProgress",
-                                               "IsComplete", "GetOutput", "Finalize", "Undefined")}
+                                               "IsComplete", "GetOutput", "Finalize", "Drop", "Undefined")}
     if never:
         raise MachineryError("vacuous model run, actions never taken: %s" % never)
     r = tlc.run("MC_EngineLifecycle", cfg="MC_EngineLive", timeout=600)
@@ -109,6 +109,7 @@ def histories(tier, seed):
                              ["iterate_n", second, 1000], ["is_complete", second], ["is_complete", first]]
                     out.append(H.mk_history("i%d" % n, calls, {"e1": k1 if first == "e1" else k2, "e2": k2 if first == "e1" else k1}, cfgs=H.LC_CFGS))
                     n += 1
+    out += H.handover_histories()
     # every other history obtains its engine objects from the package's factories (engine_collection), the others from
     # the LibRDEngine constructor: two requests must give two objects with their own status
     for i, h in enumerate(out):
